@@ -21,6 +21,9 @@ def sh(cmd, cwd=None, timeout=3000, env=ENV):
 
 def main():
     pid, out = sys.argv[1], sys.argv[2].rstrip("/")
+    tag = ""
+    if "--tag" in sys.argv:
+        tag = sys.argv[sys.argv.index("--tag") + 1] + "-"
     checks = [pid]
     if "--checks" in sys.argv:
         checks = sys.argv[sys.argv.index("--checks") + 1].split(",")
@@ -61,10 +64,11 @@ def main():
                 shutil.copy(demofile, dst)
                 rc1, o1 = sh(runcmd, cwd=wt, timeout=1800)
                 res["confirmed"]["demo_fails_with_patch"] = rc1 != 0
-                sh("git stash -q", cwd=wt)  # stash the patch (demo file is untracked and stays)
+                # never `git stash` here: refs/stash is shared by all worktrees of /repo
+                sh("git apply -R %s" % patch, cwd=wt)
                 rc2, o2 = sh(runcmd, cwd=wt, timeout=1800)
                 res["confirmed"]["demo_passes_without_patch"] = rc2 == 0
-                sh("git stash pop -q", cwd=wt)
+                sh("git apply %s" % patch, cwd=wt)
                 os.remove(dst)
                 res["confirmed"]["demo_tail_with_patch"] = o1[-400:]
             else:
@@ -84,7 +88,7 @@ def main():
                         r["replay_kind"] = rj.get("kind")
                         c0 = rj.get("case") or {}
                         r["replay_case"] = {k: c0.get(k) for k in ("id", "sel", "kind", "sig")}
-                        sd = os.path.join("/verif/seeded", "%s-%s" % (pid, i))
+                        sd = os.path.join("/verif/seeded", "%s-%s%s" % (pid, tag, i))
                         os.makedirs(sd, exist_ok=True)
                         shutil.copy(rp, os.path.join(sd, "replay-%s.json" % c))
                     except Exception as e:
@@ -92,7 +96,7 @@ def main():
                 res["checks"][c] = r
             res["detected"] = any(v["exit"] == 1 for v in res["checks"].values())
         finally:
-            sd = os.path.join("/verif/seeded", "%s-%s" % (pid, i))
+            sd = os.path.join("/verif/seeded", "%s-%s%s" % (pid, tag, i))
             os.makedirs(sd, exist_ok=True)
             shutil.copy(patch, os.path.join(sd, "patch.diff"))
             for f in glob.glob(os.path.join(out, "demo%s*" % i)):
